@@ -11,13 +11,22 @@ RULE = ("Programs without choice-domain and autoinc: recursion workloads over ra
         "recursive_iteration_cnt(), the loop counter read inside the scans) and general dlgen programs with enlarged EDBs; "
         "run at -j1 (reference) and at -jN, N drawn from {2,3,4,7,8,16}, with the guarded perturbation hook "
         "(SOUFFLE_VERIF_PERTURB=<generated seed>: seeded yields / short sleeps at every lock operation, CAS site and parallel-loop "
-        "iteration) in 3 of 4 runs; interpreter in both tiers, compiled executables (one compile, several -j / seeds) in the "
-        "thorough tier. All output relations compared as multisets with the -j1 outputs. Non-trivial = the transformed RAM at -jN "
+        "iteration) in 3 of 4 runs; interpreter in both tiers, plus 1.5% compiled variants (-jN -c against the interpreter at -j1, with "
+        "rules whose outermost operation is an aggregate). All output relations compared as multisets with the -j1 outputs. Non-trivial = the transformed RAM at -jN "
         "contains a PARALLEL operation and some output relation holds >= 50 tuples; distinct by hash of (program, N, seed). "
         "This is a search over OS schedules under seeded perturbation, not schedule control (OpenMP barriers cannot be serialised).")
 
 
 def gen(ch):
+    if ch.bool(0.015):
+        # a compiled variant (one C++ compile per case, hence rare): parallel code is chosen at translation time from -jN, so the
+        # -j4 executable is compared with the interpreter at -j1; rules whose outermost operation is an aggregate are added
+        P = dlgen.generate(ch, dlgen.Feat(max_facts=40, max_groups=3))
+        for _ in range(ch.int(1, 2)):
+            dlgen.add_agg_only(P, ch)
+        text, facts = dlgen.to_souffle(P)
+        return {"program": text, "facts": facts, "base": {"args": ["-j1"]}, "variant": {"args": ["-j%d" % ch.choice([2, 4, 8]), "-c"], "env": {}},
+                "compiled": True}
     if ch.bool(0.65):
         P = dlgen.gen_recursive(ch, max_nodes=40, max_edges=150, npatterns=(1, 3))
     else:
@@ -36,10 +45,12 @@ def gen(ch):
 
 
 def judge(case, st=None):
-    a, b = runner.differential(case, timeout=60)
+    a, b = runner.differential(case, timeout=900 if case.get("compiled") else 60)
     if st is not None:
+        if case.get("compiled"):
+            st.classes["compiled_variant(-jN -c vs interpreter -j1)"] += 1
         big = any(len(v) >= 50 for v in a.outputs.values())
-        ram = runner.show(case["program"], case["facts"], "transformed-ram", args=case["variant"]["args"])
+        ram = runner.show(case["program"], case["facts"], "transformed-ram", args=[x for x in case["variant"]["args"] if x != "-c"])
         par = ram is not None and "PARALLEL" in ram
         if par and big:
             st.nontrivial.add(common.h(case["program"] + repr(case["variant"])))
